@@ -7,6 +7,7 @@
 #include <bxdecay0/mdl_event_op.h>
 #include <bxdecay0/bb_utils.h>
 #include "fuzzcommon.hpp"
+#include "../engine/redzone.hpp"
 #include "../checks/catalog.hpp"
 
 using namespace fz;
@@ -50,6 +51,7 @@ extern "C" int LLVMFuzzerTestOneInput(const uint8_t * data, size_t size)
   } catch (Overrun &) { labels()["init_overrun"]++; return 0; }
   catch (std::exception &) { labels()["rejected"]++; return 0; }
   labels()[is_bkg ? "accepted_bkg" : "accepted_dbd"]++;
+  vf::RedzoneGuard<G> rz(g); // ASan red zones around the generator's spectrum tables while it shoots (engine/redzone.hpp)
   int nshots = 1 + b.u8() % 8; uint8_t reuse = b.u8();
   bxdecay0::event ev;
   if (reuse & 1) { // pre-filled event with junk particles and large capacity
